@@ -322,6 +322,7 @@ pub static C04: Profile = Profile {
     liveness: true,
     enumerate: None,
     extra: None,
+    borrow: &[],
     assumptions: &["exactly one client stop() races the producers (racing shutdowns are excluded by the statement); the clean-up stop comes after all threads were joined", "real threads: a stop() that took >= 2.5 s is set aside as inconclusive (internal 3 s timeout)"],
 };
 
@@ -335,5 +336,6 @@ pub static C15: Profile = Profile {
     liveness: true,
     enumerate: None,
     extra: None,
+    borrow: &[],
     assumptions: &["real threads: a drop that took >= 2.5 s is set aside as inconclusive (internal 3 s timeout)"],
 };
